@@ -23,7 +23,7 @@ var c02Full = []string{
 }
 
 // arrays used with expression-reference functions
-var c02ExpArrays = []string{"[]", `[{"a":2},{"a":1},{"a":2}]`, `[{"a":"y"},{"a":"x"}]`, `[{"a":1},{"a":"x"}]`, `[{"a":null},{"a":1}]`, "[3,1,2]", `["b","a","b"]`,
+var c02ExpArrays = []string{c02Long(14, 3), c02Long(13, 2), "[]", `[{"a":2},{"a":1},{"a":2}]`, `[{"a":"y"},{"a":"x"}]`, `[{"a":1},{"a":"x"}]`, `[{"a":null},{"a":1}]`, "[3,1,2]", `["b","a","b"]`,
 	`[[2,"p"],[1,"q"],[2,"r"]]`, `{"a":1}`, `"a"`, "null", `[{"a":true}]`, `[{"a":[1]},{"a":[1,2]}]`}
 var c02ExpRefs = []string{"&a", "&@", "&length(@)", "&$v", "&missing", "&[a][0]", "&a.b", "a", "@", "`1`", "&`1`", "&'k'", "&to_string(a)", "&[0]", "&@[0]"}
 
@@ -239,4 +239,14 @@ func diffPoint(prop string, r *core.Run, c *compiled, shape string, d doc) *core
 func c02Judge(r *core.Run, phase string, pt map[string]any) *core.Violation {
 	core.EnableTicks(c02TickBudget)
 	return diffPoint("C02", r, prepare(pstr(pt, "expr")), pstr(pt, "shape"), mkDoc(pstr(pt, "doc")))
+}
+
+// c02Long is an array of n objects whose key a cycles through m values (ties in arrays longer than the sort routine's
+// small-array threshold); i is the original position.
+func c02Long(n, m int) string {
+	parts := make([]string, n)
+	for i := range parts {
+		parts[i] = fmt.Sprintf(`{"a":%d,"i":%d}`, i%m, i)
+	}
+	return "[" + strings.Join(parts, ",") + "]"
 }
